@@ -67,6 +67,14 @@ def native_check(kind, n, env=None, seed=0):
             got = o.apply(st, keep[idx].clone())
             if tuple(got.shape) != (len(idx),) or not torch.allclose(got, base[idx], rtol=1e-10, atol=1e-12):
                 fails.append((name + ": value of a row depends on the batch it is in / on the row order (%s)" % tag, None))
+    # history: the batch of an earlier call has been freed and another batch of the same shape sits where it was
+    for name, o, O in obs:
+        base = o.apply(st, keep.clone())
+        b2 = C.at_freed_address(lambda: keep.clone(), lambda a, o=o: o.apply(st, a), lambda: keep[perm].clone())
+        if b2 is not None:
+            got = o.apply(st, b2)
+            if not torch.allclose(got, base[perm], rtol=1e-10, atol=1e-12):
+                fails.append((name + ": values for a batch that sits at the address of a freed earlier batch are not those of its rows", None))
     # history: observable objects that have served states with other numbers of sites give the same values afterwards
     fresh = {name: o.apply(st, keep.clone()) for name, o, O in obs}
     for order in ("shorter chains first", "longer chains first"):
